@@ -8,7 +8,9 @@ CONFIG = dict(
     level="proof",
     rule=("MODEL-VS-CODE cases (K, `agree` carries information): stream — `Random::new(s)` / `Random::with_rng::<B>(s)` for B in "
           "{ChaCha8, ChaCha12, ChaCha20, StdRng, a counting ChaCha12 wrapper, the transparent counter backend Ctr} walked down a path of "
-          "descendants (depth 0-4, child number 0-3 per level, alternately `iter_children` and `IntoIterator`) and then driven by a draw "
+          "descendants (depth 0-4, child number 0-3 per level, alternately `iter_children` and `IntoIterator`; the walk is made twice, once "
+          "reaching child i through take(i+1).last() and once through a mix of nth(i), skip(i).next() and repeated next() - both walks must "
+          "give the same seeds and outputs: the i-th child is the same generator however the iterator is driven) and then driven by a draw "
           "script over all four RngCore methods (next_u64, next_u32, fill_bytes n, try_fill_bytes n, n = 0..20), compared with the SAME "
           "script on the bare backend seeded through rand's own `seed_from_u64` (for Ctr: computed by the Lean model itself) with the seed "
           "the descendant reports through config() (WITNESS: how a child's seed is derived from the parent's draw is not demanded), every "
